@@ -126,6 +126,7 @@ type ReplayFile struct {
 	Function    string            `json:"function"`
 	Status      string            `json:"status"`
 	Clause      string            `json:"clause,omitempty"`
+	Where       string            `json:"where,omitempty"`
 	Sentence    string            `json:"property_sentence,omitempty"`
 	Solvers     []SolverAnswer    `json:"solver_answers"`
 	Model       map[string]string `json:"model,omitempty"`
@@ -148,7 +149,7 @@ func sanitize(s string) string {
 func writeReplay(e *Engine, dir, prop string, r *OblResult) (string, bool) {
 	os.MkdirAll(dir, 0o755)
 	path := filepath.Join(dir, sanitize(r.Name)+".json")
-	rf := ReplayFile{Property: prop, Obligation: r.Name, Function: r.Func, Status: r.Status, Clause: r.Clause, Sentence: r.Quote,
+	rf := ReplayFile{Property: prop, Obligation: r.Name, Function: r.Func, Status: r.Status, Clause: r.Clause, Where: r.Where, Sentence: r.Quote,
 		Solvers: r.Solve.Answers, RawModel: r.Solve.Model, When: time.Now().UTC().Format(time.RFC3339)}
 	if r.Status == "refuted" && r.obl != nil {
 		rf.Model = parseModel(r.obl, r.Solve.Model)
